@@ -108,7 +108,7 @@ func Model(w *Workload) *Expect {
 			f := w.Files[i]
 			for _, im := range f.Imports {
 				ver := im.Ver
-				if ver == "" && f.Remote {
+				if ver == "" && f.Remote && !strings.HasPrefix(im.Spell, "//") {
 					// inherited from the branch the importing file was fetched at
 					ver = e.ClaimVer[i]
 					if ver == "" {
